@@ -130,7 +130,7 @@ def judge(ctx, items, flagsets, ids):
     return [(h, o, info, (next(it) if row is not None else (2, 900))) for h, o, row, info in flat]
 
 
-def evaluate(ctx, items, flagsets, open_map, ids):
+def evaluate(ctx, items, flagsets, open_map, ids, exe=None):
     res = judge(ctx, items, flagsets, ids)
     if res is None:
         return
@@ -143,12 +143,45 @@ def evaluate(ctx, items, flagsets, open_map, ids):
         if out.get("crash") or out.get("killed") or info.get("problem"):
             ctx.violation("node crashed / hung while executing a native block: %s" % (out.get("panic") or info.get("problem")), rep)
             continue
+        rep = maybe_shrink(ctx, rep, v, flagsets, open_map, ids, exe)
         kind = X.handle_verdict(ctx, PID, v, flagsets, open_map, "value created or negative balance", rep,
                                 relevant={"self_transfer", "neg_amount", "stale_changer"})
         if kind == "mismatch":
             ctx.broken("correspondence:judge_native", "first differing block: " + json.dumps(rep)[:1500])
         elif kind == "domain":
             ctx.broken("correspondence:judge_native(domain)", json.dumps(rep)[:800])
+
+
+
+SHRUNK = [0]
+
+
+def maybe_shrink(ctx, rep, v, flagsets, open_map, ids, exe):
+    """minimise the history of an unexplained property violation (at most three per run)"""
+    if exe is None or v[0] != 2 or rep.get("g") is None or SHRUNK[0] >= 3:
+        return rep
+    idx = v[1] % 100
+    if 1 <= idx <= len(flagsets) and flagsets[idx - 1] and all(f in open_map for f in flagsets[idx - 1]):
+        return rep          # explained by listed findings: nothing to minimise
+    SHRUNK[0] += 1
+    g0 = rep["g"]
+    npre = len(g0["pre"]) + 1
+    pred = v[1] // 100
+
+    def still_bad(g2):
+        outs, _ = X.run_histories(exe, [to_history(g2)])
+        if outs is None:
+            return None
+        res = judge(ctx, [(g2, outs[0])], flagsets, ids)
+        res = res[0] if isinstance(res, tuple) else res
+        for _, _, info, vv in (res or []):
+            if vv[0] == 2 and vv[1] // 100 == pred and "block" in info:
+                return info["block"] - npre
+        return None
+    g1, bi = X.shrink_blocks(g0, rep["block"] - npre, still_bad)
+    if g1 is not g0:
+        rep = dict(rep, g=g1, history=to_history(g1), block=bi + npre, shrunk_from=dict(blocks=len(g0["blocks"]), txs=sum(len(b) for b in g0["blocks"])))
+    return rep
 
 
 def flag_setup():
@@ -173,7 +206,7 @@ def run(ctx):
         if outs is None:
             ctx.broken("driver:execframe", e)
         else:
-            evaluate(ctx, list(zip(items, outs)), flagsets, open_map, ids)
+            evaluate(ctx, list(zip(items, outs)), flagsets, open_map, ids, exe)
             ctx.extra["fees_distribution"] = dict(histories=len(items), admins=sorted(set(g["cfg"]["admins"] for g in items)),
                                                   prices=sorted(set(g["cfg"]["gas"] for g in items)),
                                                   tags=sorted(set(o["tag"] for g in items for b in g["blocks"] for o in b)))
